@@ -81,6 +81,10 @@ def handler_order(ctx: Ctx, chk) -> None:
         for h in t.handlers:
             elts = h.type.elts if isinstance(h.type, ast.Tuple) else [h.type] if h.type is not None else []
             names = [eea.exc_class_of(x, fr) or norm(x) for x in elts] or ["builtins.BaseException"]
+            if "builtins.FileNotFoundError" in names and len(h.body) == 1 and isinstance(h.body[0], ast.Raise) and h.body[0].exc is None:
+                # `except FileNotFoundError: raise` only keeps the error out of the broader clauses of this try:
+                # the handler that decides what a missing file means is further out
+                continue
             if "builtins.FileNotFoundError" in names:
                 found = True
                 chk.instance(rule)
